@@ -624,9 +624,14 @@ _DIGIT_MEMO = {}
 DIGIT_DIVMOD_MAX = 2
 
 
+PATH_RESET_HOOKS = []
+
+
 def _reset_runs():
     RUNS.clear()
     _DIGIT_MEMO.clear()
+    for h in PATH_RESET_HOOKS:
+        h()
 
 
 def digits_of(a, n):
